@@ -3,13 +3,15 @@
 import json, os
 ROOT = os.path.dirname(os.path.dirname(os.path.abspath(__file__)))
 
-CLAIMED = {
- "C10": dict(
-  technique="Coq proof (exactness theorems over an int64 model, Flocq for `/`) + vm_compute correspondence with props/int_props.go",
-  text="Proof: Props/C10.v states exactness of + - * -% ** // % <=> and the IEEE-754 characterisation of `/` for ALL int64 pairs over the executable model Arith/IntModel.v; the model is tied to the code on every run by evaluating it inside Coq on ~42k enumerated/boundary/random operand pairs and comparing with the built-ins called directly and through parsed source. A mismatch inside the property's domain is a concrete failing input (the model equals the exact result by theorem).",
-  note="Trusted: Coq kernel+VM, Flocq (its 4 stdlib real-number axioms appear only under the `/` theorems), the hand-written model (correspondence sampled), harness intop, Go's math.Pow path outside the domain.",
-  design="§6 C10"),
-}
+def load_claimed():
+    d = {}
+    md = os.path.join(ROOT, "tools", "manifest.d")
+    for f in sorted(os.listdir(md)):
+        if f.endswith(".json"):
+            d[f[:-5]] = json.load(open(os.path.join(md, f)))
+    return d
+
+CLAIMED = load_claimed()
 
 PENDING_REASON = "check not built yet in this session (claimed in DESIGN.md; being implemented)"
 
